@@ -624,43 +624,47 @@ def is_terminator_line(line):
 
 
 def join_logical_lines(lines):
-    """Statements may span several physical lines (string constants with
-    embedded newlines). Join until the line ends with ';' or '{' or '}' outside
-    a string."""
+    """Statements may span several physical lines (string constants with embedded newlines).
+    Join physical lines while inside a string literal (incremental scan; a literal that does not
+    close within 40 lines is assumed to be a mis-scan and the lines are emitted as they are)."""
     out = []
-    buf = ""
+    buf = None
+    nbuf = 0
+    ins = False
     for ln in lines:
-        buf = ln if not buf else buf + "\n" + ln
-        if _balanced_quotes(buf):
+        # scan this physical line, continuing the in-string state
+        i = 0
+        n = len(ln)
+        while i < n:
+            c = ln[i]
+            if ins:
+                if c == "\\":
+                    i += 2
+                    continue
+                if c == '"':
+                    ins = False
+            else:
+                if c == '"':
+                    ins = True
+                elif c == "'":
+                    m = re.match(r"'(\\.|[^\\'])'", ln[i:i + 6])
+                    if m:
+                        i += m.end()
+                        continue
+            i += 1
+        if buf is None:
+            buf = ln
+            nbuf = 1
+        else:
+            buf = buf + "\n" + ln
+            nbuf += 1
+        if not ins or nbuf > 40:
             out.append(buf)
-            buf = ""
-    if buf:
+            buf = None
+            ins = False
+    if buf is not None:
         out.append(buf)
     return out
-
-
-def _balanced_quotes(s):
-    i = 0
-    n = len(s)
-    ins = False
-    while i < n:
-        c = s[i]
-        if ins:
-            if c == "\\":
-                i += 2
-                continue
-            if c == '"':
-                ins = False
-        else:
-            if c == '"':
-                ins = True
-            elif c == "'":
-                m = re.match(r"'(\\.|[^\\'])'", s[i:i + 6])
-                if m:
-                    i += m.end()
-                    continue
-        i += 1
-    return not ins
 
 
 def parse_mir(text):
